@@ -167,6 +167,10 @@ pub fn capture_panics() {
         } else {
             "?".to_string()
         };
+        if msg == "vh-deliberate-panic" {
+            // the driver unwinds on purpose (a Consumer dropped while its thread panics)
+            return;
+        }
         let line = format!("{}|{}|{}", th, loc, msg);
         with(|c| c.panics.push(line));
         gev(json!({"ev":"panic","thread":th,"at":loc,"msg":msg}));
